@@ -12,7 +12,8 @@ HERE = os.path.dirname(os.path.abspath(__file__))
 if HERE not in sys.path:
     sys.path.insert(0, HERE)
 VERIF = os.path.dirname(HERE)
-OUT = os.path.join(VERIF, "coq", "C04_RuleTable.v")
+import c04_build
+OUT = c04_build.table_path()   # coq/C04_RuleTable.v for the default tree, a private directory for any other COLA_REPO
 KNOWN_FILES = [os.path.join(VERIF, "KNOWN_FINDINGS.txt"), os.path.join(HERE, "c04_proposed_known.txt")]
 
 
@@ -415,6 +416,7 @@ def main():
     except FailClosed as e:
         print(f"translate_c04_rules: FAIL-CLOSED: {e}", file=sys.stderr)
         return 2
+    os.makedirs(os.path.dirname(OUT), exist_ok=True)
     old = open(OUT).read() if os.path.exists(OUT) else None
     if old != text:
         tmp = OUT + ".tmp"
